@@ -49,7 +49,7 @@ def _fam(desc):
 
 
 def lam_min(nx, cls):
-    h = 1.0 / nx if cls == "single" else 1.0 / (nx - 1)
+    h = 1.0 / nx if cls != "ideal" else 1.0 / (nx - 1)
     return 4.0 / h**2 * math.sin(math.pi / (2 * (2 * nx + 1))) ** 2
 
 
@@ -65,7 +65,7 @@ def generate(ck):
         {"cls": "single", "nx": 30, "table": {"kind": "shipped", "name": "pvt_gas"}, "p_i": 8000.0, "p_f": 1000.0, "alpha_branch": False, "schedule": None, "grid": {"family": "sorted-random", "nt": 40, "t_end": 0.5, "seed": 7}},
     ]
     for i in range(n):
-        d = sim.random_sim_desc(rng, ck.tier)
+        d = sim.random_sim_desc(rng, ck.tier, twophase_share=0.08)
         if i % 5 == 0:
             # dedicated relaxation case: constant drawdown, decays by >= 1e-9 in different ways
             d["schedule"] = None
@@ -85,6 +85,11 @@ def generate(ck):
 
 def run_case(ck, desc):
     res, time, sched, fluid, _ = sim.build(desc)
+    if fluid is not None and not np.all(np.asarray(fluid.pvt_props["alpha"], dtype=float) > 0):
+        # the property's premise is a table with positive diffusivity (an arbitrary synthetic black-oil
+        # table can have a negative total compressibility somewhere): not a case for this property
+        ck.count("tables_skipped_nonpositive_diffusivity")
+        return False, {"skipped": "non-positive diffusivity in the table"}
     sim.SIM_EVENTS.clear()
     sim.simulate(res, time, sched)
     if len(sim.SIM_EVENTS) != 1:
@@ -155,7 +160,7 @@ def judge(ck, desc, cls, res, fluid, t, pp, sched, m_i, m_f):
 
     # 3. relaxation to the frac-face value whatever the step size
     if R > 0 and nt > 1:
-        if cls == "single":
+        if cls != "ideal":
             ms = np.asarray(fluid.pvt_props["m-scaled"], dtype=float)
             inside = ms[(ms > m_f[0]) & (ms < m_i)]
             ladder = np.concatenate([[m_f[0], m_i], inside])
